@@ -1,5 +1,6 @@
 SPECIFICATION Spec
 CONSTANT TranslateVaddr = TRUE
+CONSTANT NoteAlignPerSegment = TRUE
 CONSTANT RemoteNameCap = FALSE
 INVARIANTS Total Emit
 CHECK_DEADLOCK FALSE
